@@ -155,14 +155,16 @@ _fn_counter = [0]
 def mk_handler(real: Real, case, name="hnd"):
     """the Python function of an echoing handler: parameter j -> Log(marker j ++ what it is bound to)"""
     pt = real.pt
-    params = [f"a{j}: {param_annot(real, p)}" for j, p in enumerate(case["params"])]
+    # (a void method may call its FIRST parameter `output`: an ordinary positional parameter, not the keyword-only result cell)
+    pname = lambda j: "output" if (j == 0 and case.get("pos_output") and case["ret"] == "void") else f"a{j}"  # noqa: E731
+    params = [f"{pname(j)}: {param_annot(real, p)}" for j, p in enumerate(case["params"])]
     if case["ret"] != "void":
         params.append(f"*, output: {annot(real, real.a4.parse_sig(case['ret']))}")
 
     def _body(loc):
         steps, terms = [], [pt.Int(1000)]
         for j, p in enumerate(case["params"]):
-            a = loc[f"a{j}"]
+            a = loc[pname(j)]
             mk = pt.Bytes(marker(j))
             if p["kind"] == "plain":
                 steps.append(pt.Log(pt.Concat(mk, a.encode())))
@@ -218,7 +220,7 @@ def vkey(var) -> str:
     return f"v{var['version']}{'fp' if var['frame_pointers'] else ''}{'ss' if var['scratch_slots'] else ''}"
 
 
-def compile_case(real: Real, case, var, extra=()):
+def compile_case(real: Real, case, var, extra=(), stage_after=None):
     """("ok", approval, clear, contract) | ("err", type, message); `extra` = further registrations
     [(case, name, how)] added BEFORE / AFTER the main method (how: add | override | decorator)"""
     pt = real.pt
@@ -227,7 +229,11 @@ def compile_case(real: Real, case, var, extra=()):
             router = pt.Router("c09", pt.BareCallActions(no_op=pt.OnCompleteAction.create_only(pt.Approve())))
             regs = [(case, "hnd", "add")] + list(extra)
             main_obj = None
-            for cs, name, how in regs:
+            fp0 = var["frame_pointers"] if var["version"] >= 8 else None
+            for ri, (cs, name, how) in enumerate(regs):
+                if stage_after is not None and ri == stage_after:
+                    # the router is compiled once (same settings) while only the first registrations exist; its result is not looked at
+                    router.compile_program(version=var["version"], optimize=pt.OptimizeOptions(frame_pointers=fp0, scratch_slots=var["scratch_slots"]))
                 if how == "add":
                     obj = pt.ABIReturnSubroutine(mk_handler(real, cs, name))
                     main_obj = main_obj or obj
@@ -273,6 +279,8 @@ def gen_case(real: Real, r, n):
     ps = gen_params(r, n)
     ret = r.choice(RET_TYPES)
     case = {"params": ps, "ret": ret, "ret_mode": "-"}
+    if ret == "void" and ps and r.random() < 0.25:
+        case["pos_output"] = True
     if ret != "void":
         same = [j for j, p in enumerate(ps) if p["kind"] == "plain" and p["type"] == ret]
         if same and r.random() < 0.7:
@@ -793,10 +801,14 @@ def check_case(cx: Ctx, case, vs, r, n_calls=1, extra=()):
             cx.mismatch += 1
             cx.violate(f"{sig_text(case)}: tuple type model {mt} / spec {stt} / standard {want_t}", {"kind": "binding", "case": case}, no_input=True)
     for var in vs:
-        res = compile_case(real, case, var, extra)
+        # with further registrations: sometimes the router has been compiled once before they were made
+        stage = 1 if (extra and r.random() < 0.5) else None
+        if stage is not None:
+            cx.count("registration/staged (compiled once before the later registrations)")
+        res = compile_case(real, case, var, extra, stage_after=stage)
         cx.compiles += 1
         cx.count("variant/" + vkey(var))
-        base = {"case": case, "variant": var, "extra": [[cs, nm, how] for cs, nm, how in extra]}
+        base = {"case": case, "variant": var, "extra": [[cs, nm, how] for cs, nm, how in extra], "stage_after": stage}
         if res[0] == "err":
             cls = res[2][:60]
             cx.rejected_by_pyteal[cls] = cx.rejected_by_pyteal.get(cls, 0) + 1
@@ -987,7 +999,7 @@ def replay(path: str) -> int:
             return 0
         var = body["variant"]
         extra = [tuple(x) for x in body.get("extra", [])]
-        res = compile_case(real, case, var, extra)
+        res = compile_case(real, case, var, extra, stage_after=body.get("stage_after"))
         print("variant:", var)
         if res[0] == "err":
             print("real  : rejected", res[1], res[2])
